@@ -118,6 +118,53 @@ def raw_reactor(R, substrate, template, *, invert, strategy, mode):
     return R2, len(raw)
 
 
+def prune_model(R, substrate, template, *, invert, strategy, mode, keyfn, max_raw: int = 300):
+    """Data for Prune.tla: the pattern the code prunes on, every raw match (in the order of the search) and the
+    distinct reactions obtained at each single match.  None when there are too many raw matches to replay one by one."""
+    from synkit.Graph.Hyrogen._misc import has_XH, h_to_implicit
+    from synkit.Graph.Matcher.subgraph_matcher import SubgraphSearchEngine
+    from synkit.Synthesis.Reactor.strategy import Strategy
+    try:
+        from synkit.Graph.Wildcard.wildcard import has_wildcard_node, remove_wildcard_nodes   # noqa: F401
+    except Exception:
+        has_wildcard_node = None
+    pat = R.rule.left.raw
+    flag = bool(has_XH(pat))
+    if flag:
+        pat = h_to_implicit(pat)
+    if any(d.get("element") == "*" for _, d in pat.nodes(data=True)):
+        return None          # wildcard patterns are matched partially: outside this model
+    raw = SubgraphSearchEngine.find_subgraph_mappings(host=R.graph.raw, pattern=pat, node_attrs=["element", "charge"], edge_attrs=["order"],
+                                                      strategy=Strategy.from_string(R.strategy), threshold=R.embed_threshold,
+                                                      pre_filter=R.embed_pre_filter)
+    if len(raw) > max_raw or not raw:
+        return None
+    ids = sorted(pat.nodes())
+    pos = {v: k for k, v in enumerate(ids)}
+    labs: Dict[Any, int] = {}
+    lab = [labs.setdefault((d.get("element"), d.get("charge"), d.get("aromatic")), len(labs) + 1) for d in (pat.nodes[v] for v in ids)]
+    hc = [int(pat.nodes[v].get("hcount", 0) or 0) for v in ids]
+    n = len(ids)
+    adj = [[0] * n for _ in range(n)]
+    for u, v, d in pat.edges(data=True):
+        adj[pos[u]][pos[v]] = adj[pos[v]][pos[u]] = chem.o2(d.get("order", 0))
+    if any(set(m) != set(ids) for m in raw):
+        return None
+    keys = []
+    for m in raw:
+        Rk = make_reactor(substrate, template, invert=invert, strategy=strategy, mode=mode, automorphism=bool(getattr(R, "automorphism", False)))
+        _ = Rk.rule, Rk.graph
+        Rk._mappings = [dict(m)]
+        Rk._flag_pattern_has_explicit_H = flag
+        keys.append(keyfn(Rk.smarts_list))
+    labs2: Dict[Any, int] = {}
+    lab2 = [labs2.setdefault((pat.nodes[v].get("element", "*"), pat.nodes[v].get("charge", 0)), len(labs2) + 1) for v in ids]
+    it = {v: k + 1 for k, v in enumerate(pat.nodes())}
+    return {"pat": {"n": n, "lab": lab, "hc": hc, "adj": adj}, "pat2": {"n": n, "lab": lab2, "hc": [0] * n, "adj": adj},
+            "iter": [it[v] for v in ids], "exact": bool(getattr(R, "automorphism", False)),
+            "raw": [[m[p] for p in ids] for m in raw], "keys": keys}
+
+
 def reaction_keys(smarts: List[str]) -> List[Dict[str, str]]:
     out = []
     for s in smarts:
